@@ -520,7 +520,16 @@ def inline_helpers(doc, log):
                 under_try = init.get("k") == "try"
                 call = init["e"] if under_try else init
                 r = expand(call, owner, under_try) if isinstance(call, dict) else None
-                if r is not None and r[1] is not None and not under_try:
+                if r is not None and r[1] is not None and not under_try and s["pat"].get("k") == "ptuple" and r[1].get("k") == "tuple" \
+                        and len(s["pat"]["elems"]) == len(r[1]["elems"]) and all(p_.get("k") == "pident" for p_ in s["pat"]["elems"]) \
+                        and all(t_.get("k") == "path" for t_ in r[1]["elems"]):
+                    # `let (a, mut b) = helper(..)` where the helper ends in `(x, y)` with x, y its own locals: they are the caller's a, b
+                    body, tail = r
+                    for p_, t_ in zip(s["pat"]["elems"], tail["elems"]):
+                        body = _rename_one(body, t_["p"], p_["name"], bool(p_.get("mut")))
+                    out.extend(body)
+                    changed = done = True
+                elif r is not None and r[1] is not None and not under_try:
                     body, tail = r
                     if tail.get("k") == "path" and s["pat"].get("k") == "pident" and any(x.get("k") == "pident" and x.get("name") == tail["p"] for x in walk(body)):
                         # the helper returns one of its own locals: that local *is* the caller's variable
